@@ -416,6 +416,10 @@ def stream_compounds(run: Run, c: Ctx, batch: Batch, n):
             es = [e] + [gen_energy(rng, c, struct)[0] for _ in range(rng.randint(1, 3))]
             arg = np.array(es) if call == "sld_vec" else list(es)
             res = py(lambda: xsf.xray_sld(f, density=dens, energy=arg))
+            if res[0] == "ok" and np.ndim(res[1][0]) == 0:
+                # an all-zero composition (mass == 0) returns the scalars (0, 0) whatever the shape asked
+                res = ("ok", (np.full(len(es), res[1][0], dtype=float), np.full(len(es), res[1][1], dtype=float)))
+                run.dist["compound:zero-mass"] = run.dist.get("compound:zero-mass", 0) + 1
             for j, ej in enumerate(es):
                 resj = res if res[0] == "err" else ("ok", (res[1][0][j], res[1][1][j]))
                 oj = expect_sld(ej, dens)
@@ -662,7 +666,7 @@ def guarded(run, what, fn, *args):
     except Exception as ex:  # noqa
         import traceback
         tb = traceback.extract_tb(ex.__traceback__)
-        where = [f for f in tb if "periodictable" in f.filename]
+        where = [f for f in tb if "periodictable" in f.filename] or list(tb)
         run.violation("the real code raised %s during the %s stream" % (type(ex).__name__, what),
                       dict(stream=what, exception=repr(ex),
                            where=["%s:%d %s" % (f.filename.rsplit("/", 1)[-1], f.lineno, f.name) for f in where[-3:]]),
